@@ -15,6 +15,7 @@ import FileD.Prelude.Bytes
 import FileD.Prelude.JTree
 import FileD.Model.Antispam
 import FileD.Model.Admission
+import FileD.Model.MatchRule
 namespace FileD.SpecC20
 open FileD FileD.Admission
 
@@ -100,6 +101,37 @@ def outcomeTok : Outcome → String
     exactly what `admitRec` demands -/
 def holdsIn (s : Settings) (decode : Bytes → Option JTree) (recs : List Rec) (impl : String) : Bool :=
   Tok.unwords ((admitSeq s decode Antispam.init recs).map outcomeTok) == impl
+
+/-! ## matchrule: what "an exception matches" means -/
+
+section MR
+open FileD.MatchRule
+
+/-- a rule matches iff some (prepared) value is a prefix / suffix / substring of the (lowered, when
+    case-insensitive) data — negated by `invert` -/
+def specRule (lower : Bytes → Bytes) (r : Rule) (raw : Bytes) : Bool :=
+  (prepared lower r).any (fun v => modeHolds r.mode v (if r.ci then lower raw else raw)) != r.invert
+
+/-- a rule set matches iff it has rules and all (`and`) / some (`or`) of them match -/
+def specRuleSet (lower : Bytes → Bytes) (isOr : Bool) (rules : List Rule) (raw : Bytes) : Bool :=
+  if rules = [] then false
+  else if isOr then rules.any (specRule lower · raw) else rules.all (specRule lower · raw)
+
+/-- executable form of `LowerNice` for a rule (trivially true when it is case-sensitive) -/
+def lowerNiceB (lower : Bytes → Bytes) (r : Rule) (raw : Bytes) : Bool :=
+  !r.ci ||
+  (let M := maxLen (prepared lower r)
+   (lower raw).length == raw.length && lower (raw.take M) == (lower raw).take M &&
+   lower (raw.drop (raw.length - M)) == (lower raw).drop (raw.length - M))
+
+/-- property oracle for a `c20.mr` case: the implementation's answer is the literal one. Outside the
+    spec's domain (a rule without values: `Match` panics; lowering that changes lengths, i.e.
+    non-ASCII data under case_insensitive) nothing is demanded. -/
+def holdsMr (lower : Bytes → Bytes) (isOr : Bool) (rules : List Rule) (raw : Bytes) (impl : String) : Bool :=
+  if rules.any (fun r => r.values.isEmpty) || !(rules.all (lowerNiceB lower · raw)) then true
+  else impl == Tok.ofBool (specRuleSet lower isOr rules raw)
+
+end MR
 
 /-! ## antispam: observations and the trace oracle -/
 
